@@ -48,7 +48,8 @@ def run(ctx):
   ctx.rule = ("SDML and SDML_Supervised x prior in {identity, covariance, random, SPD array} x sparsity_param in {0.01, 0.1, "
               "0.5} x balance_param chosen so that the graphical-lasso input is positive definite: (a) the matrix handed to "
               "the solver equals M0^-1 + balance * sum y_i v_i v_i^T recomputed on exact rationals from the pairs, labels, "
-              "balance_param and prior inverse; (b) KKT certificate of the returned M (M^-1 by exact Gauss-Jordan, residual "
+              "balance_param and prior inverse, and M0^-1 is the inverse of the documented prior (identity; covariance of the distinct "
+              "training points; the given array); (b) KKT certificate of the returned M (M^-1 by exact Gauss-Jordan, residual "
               "tolerance 5e-3 max|S|); (c) M SPD; (d) no objective decrease along +-eps coordinate directions; failure "
               "clause: a non-PD input ends in RuntimeError or a certified-SPD M.")
   ctx.trusted = ["Coq 8.16.1 kernel + vm_compute", "model Model/SDML.v", "oracle: scikit-learn graphical lasso (certified per run)",
@@ -101,6 +102,22 @@ def run(ctx):
         pn = Constraints(data['y']).positive_negative_pairs(kw['n_constraints'], random_state=kw['random_state'])
       _, yp = wrap_pairs(data['X'], pn)
     diffs = P[:, 0] - P[:, 1]
+    # M0 is what the prior option says (independent evaluation; 'random' is covered by C20)
+    ctx.count('prior_is_documented', 1)
+    Pinv = cap['prior_inv']
+    if prior == 'identity':
+      doc = np.eye(d)
+    elif prior == 'covariance':
+      uniq = np.unique(P.reshape(-1, d), axis=0)        # the distinct training points
+      doc = np.atleast_2d(np.cov(uniq, rowvar=False))
+      ctx.hist('covariance_prior.points_shared_between_pairs', bool(len(uniq) < 2 * len(np.unique(P, axis=0))))
+    elif prior == 'array':
+      doc = np.linalg.inv(np.asarray(kw['prior'], dtype=float))
+    else:
+      doc = None
+    if doc is not None and np.abs(Pinv - doc).max() > 1e-8 * np.abs(doc).max():
+      ctx.fail_input('prior_is_documented', "M0^-1 is not the inverse of the documented '%s' prior" % prior, inp,
+                     observed=Pinv.tolist(), expected=doc.tolist())
     S, M, alpha = cap['S'], cap['M'], float(kw['sparsity_param'])
     if cap['alpha'] != kw['sparsity_param']:
       ctx.fail_input('solver_call', 'sparsity_param is not what the solver receives as alpha', inp, observed=cap['alpha'])
